@@ -309,7 +309,7 @@ def run(prog, rep):
             c = st.value
             if call_name(c) == 'append' and isinstance(c.func.value, ast.Name):
                 return (c.func.value, ast.Constant(value='collect-for-deletion'))
-            if call_name(c) == 'update_node_property':
+            if call_name(c) in ('update_node_property', 'unset_node_property'):
                 pn = kwarg(c, 'prop_name')
                 return (pn, ast.Constant(value='write:' + (fold_name(pn) or 'delegations')))
         return None
